@@ -41,6 +41,29 @@ type action struct {
 	V   int     `json:"v,omitempty"`
 	Ops []tk.KV `json:"ops,omitempty"`
 	Par bool    `json:"par,omitempty"`
+	// representation of the empty value (deletion by empty value): "nil", "empty" (zero-length
+	// non-nil slice), "mixed" (alternating inside a batch)
+	Enc string `json:"enc,omitempty"`
+}
+
+// emptyVal returns the chosen representation of the empty value for the i-th entry.
+func emptyVal(enc string, i int) []byte {
+	switch enc {
+	case "empty":
+		return []byte{}
+	case "mixed":
+		if i%2 == 0 {
+			return make([]byte, 0, 8)
+		}
+	}
+	return nil
+}
+
+func valOf(id int, enc string, i int) []byte {
+	if id == 0 {
+		return emptyVal(enc, i)
+	}
+	return tk.ValBytes(id)
 }
 
 type expState struct {
@@ -165,14 +188,14 @@ func (e *env) apply(tr *trie.Trie, a action) error {
 	case "put":
 		return tr.Update(e.key(a.K), tk.ValBytes(a.V))
 	case "putempty":
-		return tr.Update(e.key(a.K), nil)
+		return tr.Update(e.key(a.K), emptyVal(a.Enc, 0))
 	case "del":
 		return tr.Delete(e.key(a.K))
 	case "batch":
 		keys := make([][]byte, len(a.Ops))
 		vals := make([][]byte, len(a.Ops))
 		for i, o := range a.Ops {
-			keys[i], vals[i] = e.key(o.K), tk.ValBytes(o.V)
+			keys[i], vals[i] = e.key(o.K), valOf(o.V, a.Enc, i)
 		}
 		return tr.UpdateBatch(keys, vals)
 	}
@@ -323,27 +346,39 @@ func runEdges(e *env, in string) {
 			// real schedules of the concurrent batch workers: vary the parallelism
 			runtime.GOMAXPROCS(procs[e.r.Intn(len(procs))])
 		}
-		variant := e.r.Intn(nVariants)
-		tr, err := e.build(ed.From, variant)
-		if err != nil {
-			e.sum.Violate(fmt.Sprintf("building %v (variant %d): %v", ed.From, variant, err), tl.M{"edge": ed, "variant": variant})
-			continue
+		// a batch is replayed from every internal condition of the source state (dirty, hashed =
+		// cached node hashes, committed + reopened = unresolved references); single operations
+		// from one seeded condition
+		variants := []int{e.r.Intn(nVariants)}
+		if ed.Act.Op == "batch" {
+			variants = []int{0, 1, 2}
 		}
-		e.sum.Evaluations++
-		e.sum.Steps++
 		e.sum.Count(ed.Act.Op)
 		if ed.Act.Par {
 			e.sum.Count("batch-parallel")
 		}
-		d := ""
-		if err := e.apply(tr, ed.Act); err != nil {
-			d = "error: " + err.Error()
-		} else {
-			d = e.deep(tr, ed.To)
+		if ed.Act.Enc == "empty" {
+			e.sum.Count("empty-non-nil-deletions")
 		}
-		if d != "" {
-			e.sum.Violate(fmt.Sprintf("%s %v from %v (variant %d): %s", ed.Act.Op, actArgs(ed.Act), ed.From, variant, d),
-				tl.M{"edge": ed, "variant": variant, "pad": e.pad})
+		for _, variant := range variants {
+			tr, err := e.build(ed.From, variant)
+			if err != nil {
+				e.sum.Violate(fmt.Sprintf("building %v (variant %d): %v", ed.From, variant, err), tl.M{"edge": ed, "variant": variant})
+				continue
+			}
+			e.sum.Evaluations++
+			e.sum.Steps++
+			d := ""
+			if err := e.apply(tr, ed.Act); err != nil {
+				d = "error: " + err.Error()
+			} else {
+				d = e.deep(tr, ed.To)
+			}
+			if d != "" {
+				e.sum.Violate(fmt.Sprintf("%s %v from %v (variant %d): %s", ed.Act.Op, actArgs(ed.Act), ed.From, variant, d),
+					tl.M{"edge": ed, "variant": variant, "pad": e.pad})
+				break
+			}
 		}
 		key := fmt.Sprint(ed.From, ed.Act)
 		if fmt.Sprint(ed.From) != fmt.Sprint(ed.To.KV) && !distinct[key] {
@@ -354,12 +389,12 @@ func runEdges(e *env, in string) {
 			e.sum.Sample(ed)
 		}
 	}
-	e.sum.Rule = "every user-level transition (key-value set, action, successor) of the TLC state graph executed on trie.Trie from a seeded internal condition (dirty / hashed / committed+reopened / detour); distinct = distinct (set, action) pairs that change the set"
+	e.sum.Rule = "every user-level transition (key-value set, action, successor) of the TLC state graph executed on trie.Trie from a seeded internal condition (dirty / hashed / committed+reopened / detour; batches from all of the first three, deletions as nil and as empty non-nil values); distinct = distinct (set, action) pairs that change the set"
 }
 
 func actArgs(a action) string {
 	if a.Op == "batch" {
-		return fmt.Sprintf("%v par=%v", a.Ops, a.Par)
+		return fmt.Sprintf("%v par=%v empty=%s", a.Ops, a.Par, a.Enc)
 	}
 	return fmt.Sprintf("%v=%d", a.K, a.V)
 }
